@@ -181,7 +181,7 @@ def setSlot (st : DState) (i : Nat) (o : Obj) : DState :=
 def opIntern (st : DState) (s : Nat) (x : Bytes) (infallible : Bool) : DState × String :=
   match getSlot st s with
   | .rodeo r =>
-    let res := r.tryIntern st.env x true
+    let res := r.tryIntern st.env x (growAt r.strings.length)
     let res := if infallible then Rodeo.expectOk res else res
     match res with
     | .ok (r', k) => (setSlot st s (.rodeo r'), s!"ok {k}")
@@ -195,7 +195,7 @@ def opIntern (st : DState) (s : Nat) (x : Bytes) (infallible : Bool) : DState ×
 def opInternStatic (st : DState) (s : Nat) (i : Nat) (infallible : Bool) : DState × String :=
   match getSlot st s with
   | .rodeo r =>
-    let res := r.tryInternStatic st.env i true
+    let res := r.tryInternStatic st.env i (growAt r.strings.length)
     let res := if infallible then Rodeo.expectOk res else res
     match res with
     | .ok (r', k) => (setSlot st s (.rodeo r'), s!"ok {k}")
@@ -476,7 +476,7 @@ def stepOp (st : DState) (toks : List String) : DState × String :=
       if op == "clone" || op == "tryClone" then
         match getSlot st a with
         | .rodeo r =>
-          let res := r.tryClone st.env true
+          let res := r.tryClone st.env false
           let res := if op == "clone" then Rodeo.expectOk res else res
           match res with
           | .ok r' => (setSlot st b (.rodeo r'), "ok")
@@ -486,7 +486,7 @@ def stepOp (st : DState) (toks : List String) : DState × String :=
         -- target a, source b; a failed clone-into leaves the target unspecified: it is dropped
         match getSlot st a, getSlot st b with
         | .rodeo t, .rodeo src =>
-          let res := Rodeo.tryCloneFrom st.env t src true
+          let res := Rodeo.tryCloneFrom st.env t src false
           let res := if op == "cloneFrom" then Rodeo.expectOk res else res
           match res with
           | .ok r' => (setSlot st a (.rodeo r'), "ok")
